@@ -1,6 +1,8 @@
 package verifsim
 
 import (
+	"net/http"
+	"time"
 	"context"
 	"fmt"
 
@@ -22,7 +24,13 @@ const (
 // RPC-level oracles apply unchanged. Not among the kinds drawn by g.IntN(numTopos).
 const TopoWS = numTopos
 
-var topoNames = []string{"direct", "proxy", "demux", "proxy+demux", "websocket"}
+// TopoHTTP: direct, over the library's HTTP transport: every client owns a GoatOverHttp
+// instance and dials the server's; the server's instance hands each new peer to a Serve.
+// POSTs travel through an in-memory RoundTripper (a scheduling point each); idle
+// timeouts are set to an hour. No wire taps, no link faults.
+const TopoHTTP = numTopos + 1
+
+var topoNames = []string{"direct", "proxy", "demux", "proxy+demux", "websocket", "http"}
 
 // TopoSpec is the drawn topology of a run.
 type TopoSpec struct {
@@ -126,6 +134,43 @@ func Build(e *Env, spec TopoSpec, srv *goat.Server, copts func(i int) []goat.Dia
 			}
 			n.startServe(fmt.Sprintf("serve%d", i), goat.NewGoatOverWebsocket(s))
 			n.CCs = append(n.CCs, goat.NewClientConn(goat.NewGoatOverWebsocket(c), clientName(i), ServerID, opts(i)...))
+		}
+	case TopoHTTP:
+		rt := &memRoundTripper{e: e, hosts: map[string]*goat.GoatOverHttp{}, CtxErr: true}
+		old := http.DefaultTransport
+		http.DefaultTransport = rt
+		e.OnTeardown(func() { http.DefaultTransport = old })
+		srcMap := func(src string) (string, error) { return "addr-" + src, nil }
+		tctx, tcancel := context.WithCancel(context.Background())
+		e.OnTeardown(tcancel)
+		hopts := []goat.GoatOverHttpOption{goat.WithConnectionCleanupInterval(time.Hour), goat.WithConnectionTimeout(2 * time.Hour)}
+		k := 0
+		B := goat.NewGoatOverHttp(func(id string, rw goat.RpcReadWriter) {
+			// runs on a goat goroutine
+			histMu.Lock()
+			name := fmt.Sprintf("hserve%d", k)
+			k++
+			histMu.Unlock()
+			ctx, cancel := context.WithCancel(context.Background())
+			sr := &ServeRec{Name: name, Cancel: cancel, Ctx: ctx}
+			e.OnTeardown(cancel)
+			histMu.Lock()
+			n.Serves = append(n.Serves, sr)
+			histMu.Unlock()
+			err := n.Srv.Serve(ctx, rw)
+			histMu.Lock()
+			sr.Err = err
+			sr.Returned = true
+			histMu.Unlock()
+			sr.ReturnEv = e.Log("serve.ret", name, 0, errStr(err))
+		}, srcMap, hopts...)
+		rt.hosts["addr-"+ServerID] = B
+		e.OnTeardown(B.Cancel)
+		for i := 0; i < spec.Clients; i++ {
+			A := goat.NewGoatOverHttp(func(string, goat.RpcReadWriter) {}, srcMap, hopts...)
+			rt.hosts["addr-"+clientName(i)] = A
+			e.OnTeardown(A.Cancel)
+			n.CCs = append(n.CCs, goat.NewClientConn(&untilTeardown{inner: A.NewConnection("addr-" + ServerID), end: tctx}, clientName(i), ServerID, opts(i)...))
 		}
 	case TopoProxy:
 		// clients and one server connection per client are all attached to one
@@ -249,3 +294,21 @@ func Build(e *Env, spec TopoSpec, srv *goat.Server, copts func(i int) []goat.Dia
 
 // AllLinks returns every link of the run (for wire oracles).
 func (e *Env) AllLinks() []*Link { return e.links }
+
+// untilTeardown passes everything through; its Reads also end when the run is torn down
+// (an HTTP connection has no Close the application could call, and a ClientConn never
+// cancels the context it reads under).
+type untilTeardown struct {
+	inner goat.RpcReadWriter
+	end   context.Context
+}
+
+func (u *untilTeardown) Read(ctx context.Context) (*goat.Rpc, error) {
+	c, cancel := context.WithCancel(ctx)
+	stop := context.AfterFunc(u.end, cancel)
+	defer stop()
+	defer cancel()
+	return u.inner.Read(c)
+}
+
+func (u *untilTeardown) Write(ctx context.Context, r *goat.Rpc) error { return u.inner.Write(ctx, r) }
